@@ -9,6 +9,8 @@ from rtamt.semantics.abstract_dense_time_offline_interpreter import AbstractDens
 from rtamt.semantics.discrete_time_interpreter import DiscreteTimeInterpreter
 
 from rtamt.exception.exception import RTAMTException
+from rtamt.syntax.node.ltl.next import Next
+from rtamt.syntax.node.ltl.strong_next import StrongNext
 
 from antlr4 import *
 from antlr4.InputStream import InputStream
@@ -305,7 +307,17 @@ class AbstractOnlineSpecification(AbstractSpecification):
 
     # forwarding pastify
     def pastify(self):
+        if isinstance(self.online_interpreter, AbstractDenseTimeOnlineInterpreter):
+            # next and s_next count samples: the dense-time monitors refuse them, and the pastifier would rewrite them away
+            for spec in self.ast.specs:
+                self.refuse_next(spec)
         self.ast = self.pastifier.pastify(self.ast)
+
+    def refuse_next(self, node):
+        if isinstance(node, (Next, StrongNext)):
+            raise RTAMTException('Next operator not implemented in STL dense-time monitor.')
+        for child in node.children:
+            self.refuse_next(child)
 
     # forwarding to interpreter
     def update(self, *args, **kwargs):
